@@ -1,5 +1,6 @@
 import PyxelModel.Core.J
 import PyxelModel.Model.C01
+import PyxelModel.Model.C01Keys
 import PyxelModel.Generated.C01
 /-! Line-protocol glue for C01.  `model` follows the group tuple regenerated from today's source,
 `spec` uses the physical order written in the property. -/
@@ -19,8 +20,21 @@ def decGroup (j : Json) : R (String × List (Model String)) := do
 def encCall (c : Nat × Call String) : Json :=
   Json.arr #[ofNat c.1, Json.str c.2.group, ofNat c.2.idx, Json.str c.2.name, Json.str c.2.args]
 
+/-- a change made after construction: `[group, index, name, enabled, "attr" | "override"]` —
+"attr" assigns `pipeline.<group>.models[index].enabled`, "override" goes through the dotted key -/
+def decToggle (j : Json) : R (String × Nat × String × Bool × String) := do
+  match j with
+  | .arr #[g, i, n, e, r] => .ok (← asStr g, ← asNat i, ← asStr n, ← asBool e, ← asStr r)
+  | _ => .error "toggle: expected [group, index, name, enabled, route]"
+
+def applyToggle (p : Pipeline String) (t : String × Nat × String × Bool × String) : Pipeline String :=
+  let (g, i, n, e, r) := t
+  if r == "attr" then setIdx p g i (withEnabled e) else setKey p g n (withEnabled e)
+
 def handle (j : Json) : R Json := do
-  let p ← asList decGroup (← fld j "groups")
+  let p0 ← asList decGroup (← fld j "groups")
+  let ts ← asList decToggle (fldD j "toggles" (Json.arr #[]))
+  let p := ts.foldl applyToggle p0
   let n ← asNat (← fld j "steps")
   let dbg ← asBool (fldD j "debug" (Json.bool false))
   .ok (obj [("model", ofList encCall (runExposure PyxelModel.Generated.C01.modelGroups p n dbg)),
